@@ -289,8 +289,8 @@ func buildHTMLSnapshot(b *htmlBranch, hostile bool, seed int64) (*stack.Snapshot
 	}
 	snap := &stack.Snapshot{LocalGOROOT: s("lgoroot"), RemoteGOROOT: s("rgoroot"), LocalGOPATHs: []string{s("gp1"), s("gp2")},
 		RemoteGOPATHs: map[string]string{s("rgp"): s("lgp")}, LocalGomods: map[string]string{s("modk"): s("modv"), s("modk2"): s("modv2")}}
-	for n := 1; n <= 2; n++ {
-		g := &stack.Goroutine{Signature: mkSigN(n), ID: 10 - 3*n, First: n == 1} // ids 7, 4: printed order is not id order
+	for n := 1; n <= 3; n++ {
+		g := &stack.Goroutine{Signature: mkSigN(n), ID: []int{7, 9, 4}[n-1], First: n == 1} // printed order is not id order
 		if b.Kind == "race" {
 			g.RaceAddr = 0xc000012340
 			g.RaceWrite = n == 1
